@@ -720,8 +720,10 @@ class Engine:
         if k == "module":
             return Module(desc["name"])
         if k == "class":
-            if desc.get("repo") or desc["qualname"].startswith("builtins."):
+            if desc["qualname"].startswith("builtins.") or (desc.get("repo") and desc["qualname"] in self.facts.classes):
                 return ClassRef(desc)
+            # classes of the dependencies, and repository subclasses of them whose module is not under contract
+            # (e.g. the custom Django lookup): external constructors
             return ExtRef(desc["qualname"], desc)
         if k == "func":
             if desc.get("repo"):
@@ -1138,6 +1140,8 @@ class Engine:
         raise Unsupported(f"setitem on {type(o).__name__}")
 
     def concrete_key(self, path, k):
+        if isinstance(k, Sym) and path is not None and self.tag_of(path, k) == "StrV":
+            k = self.from_pv(self.U.strv(self.PV.s(k.term)))
         if isinstance(k, SStr):
             # dictionary keyed by a symbolic string: keep the term as key identity
             return ("sstr", k.term().get_id(), k)
@@ -1829,6 +1833,12 @@ class Engine:
             h = self.attr_models.get(("<getitem>",))
             if h:
                 return h(self, path, o, k)
+            if isinstance(k, (str, SStr)):
+                # mapping-like external object: KeyError iff the key is absent (assumed contract of the dependency)
+                kt = z3.StringVal(k) if isinstance(k, str) else k.term()
+                has = self.uf("ext_has_key", self.PV, z3.StringSort(), z3.BoolSort())(self.to_pv(o), kt)
+                if not self.branch(path, has):
+                    self.throw(path, "KeyError", k)
             return self.ext_op(path, "operator.getitem", [o, k])
         h = self.attr_models.get(("<getitem>", type(o).__name__))
         if h:
